@@ -1,0 +1,21 @@
+//go:build verif
+
+package common
+
+// Contracts for the deductive checker in /verif (comment-only; compiled only with -tags verif).
+
+/*@
+// C16: the EVM address named by a validator-operator string is the address whose bytes the string encodes; an account
+// string (no "val" in it) must be well formed (MustAccAddressFromBech32 panics otherwise)
+func HexAddressFromBech32String
+    requires wellformed: !str_contains(addr, "val") ==> acc_bech_ok(addr)
+    ensures val: str_contains(addr, "val") ==> (err == nil) == val_bech_ok(addr) && (err == nil ==> res == bytes_addr(val_of_bech(addr)))
+    ensures acc: !str_contains(addr, "val") ==> err == nil && res == bytes_addr(acc_of_bech(addr))
+
+// C16: the ABI view of a coin list has the same denominations and amounts, in the same order
+func NewCoinsResponse
+    ensures shape: len(result) == coins_len(amount)
+    ensures elems: forall k int :: 0 <= k && k < len(result) ==> result[k].Denom == coins_at(amount, k).Denom && result[k].Amount != nil && *result[k].Amount == coins_at(amount, k).Amount
+    loop 1 invariant idx: 0 <= #i && #i <= coins_len(amount) && len(outputs) == coins_len(amount)
+    loop 1 invariant elems: forall k int :: 0 <= k && k < #i ==> outputs[k].Denom == coins_at(amount, k).Denom && outputs[k].Amount != nil && fresh(outputs[k].Amount) && *outputs[k].Amount == coins_at(amount, k).Amount
+@*/
